@@ -156,7 +156,7 @@ func Main(args []string) int {
 	defer harness.RemoveScratch()
 	rep := explore.NewReporter(prop, "model_checking", f, harness.Out())
 	evs := Events(f.Tier)
-	depth, budget := 5, 210*time.Second
+	depth, budget := 5, 228*time.Second
 	if f.Tier == "thorough" {
 		depth, budget = 7, 27*time.Minute
 	}
